@@ -146,33 +146,65 @@ class Smoother:
                     cnt = [d for nm, dd in sc.scalars.items() for d in dd if d.rhs.key() == f"sum[{n}]"]
                     return dict(name=n, preds=preds, series=series, nodata=nod, dialect="vector", stmt=st, seq=seq,
                                 count=f"sum[{n}]", count_name=cnt[0].name if cnt else None, full=True)
-        # loop dialect: W[i] = 0 under eq nodata, W[i] = 1 under complement, over the whole series
-        cands: Dict[str, dict] = {}
+        # loop dialect: W[i] = 0 under the missing-cell predicate, W[i] = 1 under its complement, over the whole series
+        from ..symb import negate_key
+        zeros: Dict[str, Store] = {}
+        ones: Dict[str, Store] = {}
         for s in sc.stores:
             if s.region.kind != "loop" or s.idx_key != s.region.var or not s.guards:
                 continue
-            g = s.guards[-1]
             v = s.rhs.const_value()
-            mm = re.fullmatch(r"(eq0|ne0)\[-1\*(\w+) \+ (\w+)\[" + s.region.var + r"\]\]", g)
-            if mm and v in (0, 1):
-                tag, nod, series = mm.groups()
-                c = cands.setdefault(s.arr, dict(zero=None, one=None, series=series, nodata=nod, region=s.region, stmt=s.stmt, seq=s.seq))
-                if tag == "eq0" and v == 0 and len(s.guards) == 1:
-                    c["zero"] = s
-                if tag == "ne0" and v == 1 and len(s.guards) == 1:
-                    c["one"] = s
-        for n, c in cands.items():
-            if c["zero"] is not None and c["one"] is not None:
-                rng = c["region"].rng
-                full = rng is not None and len(rng) == 1 and rng[0].key() in (f"len0[{c['series']}]",)
-                # counter
-                cnt = None
-                for nm, dd in sc.scalars.items():
-                    for d in dd:
-                        if d.aug and d.region is c["region"] and list(d.guards) == [c["one"].guards[-1]] and (d.rhs - Rat.atom(nm)).equals(Rat.const(1)):
-                            cnt = nm
-                return dict(name=n, preds={"nodata"}, series=c["series"], nodata=c["nodata"], dialect="loop", stmt=c["zero"].stmt, seq=c["seq"],
-                            count=cnt, count_name=cnt, full=full, region=c["region"])
+            if v == 0:
+                zeros[s.arr] = s
+            elif v == 1:
+                ones[s.arr] = s
+        for n, z0 in zeros.items():
+            o1 = ones.get(n)
+            if o1 is None or o1.region is not z0.region:
+                continue
+            npre = 0
+            while npre < min(len(z0.guards), len(o1.guards)) and z0.guards[npre] == o1.guards[npre]:
+                npre += 1
+            zg, og = list(z0.guards[npre:]), list(o1.guards[npre:])
+            if len(zg) != 1:
+                continue
+            iv = z0.region.var
+            g = zg[0]
+            parts = split_args(g) if g.startswith("or[") else [g]
+            if set(og) != {negate_key(p_) for p_ in parts}:
+                continue
+            preds, nod, series = set(), None, None
+            okp = True
+            for p_ in parts:
+                mm = re.fullmatch(r"eq0\[-1\*(\w+) \+ (\w+)\[" + iv + r"\]\]", p_)
+                m2 = re.fullmatch(r"is(nan|inf)\[(\w+)\[" + iv + r"\]\]", p_)
+                if mm:
+                    preds.add("nodata")
+                    nod, ser = mm.group(1), mm.group(2)
+                elif m2:
+                    preds.add(m2.group(1))
+                    ser = m2.group(2)
+                else:
+                    okp = False
+                    break
+                if series is not None and ser != series:
+                    okp = False
+                    break
+                series = ser
+            if not okp or "nodata" not in preds:
+                continue
+            rng = z0.region.rng
+            full = rng is not None and len(rng) == 1 and rng[0].key() in (f"len0[{series}]",)
+            cnt = None
+            for nm, dd in sc.scalars.items():
+                for d in dd:
+                    if d.aug and d.region is z0.region and list(d.guards) == list(o1.guards) and (d.rhs - Rat.atom(nm)).equals(Rat.const(1)):
+                        cnt = nm
+            if cnt is None:
+                cs = [d for nm, dd in sc.scalars.items() for d in dd if d.rhs.key() == f"sum[{n}]"]
+                cnt = f"sum[{n}]" if cs else None
+            return dict(name=n, preds=preds, series=series, nodata=nod, dialect="loop", stmt=z0.stmt, seq=z0.seq,
+                        count=cnt, count_name=cnt, full=full, region=z0.region)
         # helper: the mask is a parameter
         if "w" in self.k.params:
             return dict(name="w", preds=None, series=self.k.params[0], nodata=None, dialect="parameter", stmt=self.k.node, seq=0, count=None,
